@@ -280,7 +280,16 @@ func c05(c *Ctx) {
 			}
 			return true
 		})
-		if sw == nil || !isLenOf(ainfo, sw.Tag, func(ast.Expr) bool { return true }) {
+		// the tag is len(kvs), possibly held in a local (n := len(kvs))
+		tagIsLen := false
+		if sw != nil && sw.Tag != nil {
+			tag := ast.Expr(sw.Tag)
+			if def := ax.FG(fn).LocalDef(objOf(ainfo, tag)); def != nil {
+				tag = def
+			}
+			tagIsLen = isLenOf(ainfo, tag, func(ast.Expr) bool { return true })
+		}
+		if sw == nil || !tagIsLen {
 			c.Undecided("R4", "attribute|computeDistinctFixed|switch len(kvs)", at(ax.M, fn.Pos()), "not a switch over len(kvs)")
 		} else {
 			for _, cl := range sw.Body.List {
@@ -301,6 +310,18 @@ func c05(c *Ctx) {
 				}
 				if cc.List == nil {
 					good := false
+					// an empty default arm falls out of the switch: then every return after the switch must be nil
+					if len(cc.Body) == 0 {
+						good = true
+						inspectNoLit(fn.Body(), func(n ast.Node) bool {
+							if rs, ok := n.(*ast.ReturnStmt); ok && !containsNoLit(sw, rs) {
+								if len(rs.Results) == 0 || !(isNilIdent(ainfo, rs.Results[0]) || (len(rs.Results) == 2 && ainfo.Types[rs.Results[1]].Value != nil && ainfo.Types[rs.Results[1]].Value.String() == "false")) {
+									good = false
+								}
+							}
+							return true
+						})
+					}
 					for _, st := range cc.Body {
 						if rs, ok := st.(*ast.ReturnStmt); ok && len(rs.Results) == 1 && isNilIdent(ainfo, rs.Results[0]) {
 							good = true
